@@ -32,7 +32,9 @@ def limit_case(draw, brokers):
         jobs.append(j)
     case = {"broker": broker, "seed": draw(st.integers(0, 2**16)), "converter": "basic", "actors": actors,
             "policy": {"kind": "table", "values": [30.0]},
-            "worker": {"tasks_limit": draw(st.sampled_from([1, 2, 3, 1000])), "messages_limit": m},
+            # (graceful_shutdown_time bounds the wait after a stop *request*; reaching the limit is not one: "however long actors run")
+            "worker": {"tasks_limit": draw(st.sampled_from([1, 2, 3, 1000])), "messages_limit": m,
+                       "graceful": draw(st.sampled_from([25.0, 25.0, 0.3, 1.0]))},
             "jobs": jobs, "stop": "limit", "horizon": 45.0}
     if broker != "mem":
         case["lat"] = draw(st.lists(st.sampled_from([0.0, 0.001, 0.003]), max_size=20))
